@@ -106,6 +106,8 @@ class NumPathsOptimization(pathmodel.AbstractPathModelDAG): # Note that we inher
         
         self.lowerbound_k = None
         self._solution = None
+        self._is_solved = False
+        self.model = None
         self.solve_statistics = None
 
         utils.logger.info(f"{__name__}: created NumPathsOptimization with model_type = {model_type}")
@@ -149,6 +151,10 @@ class NumPathsOptimization(pathmodel.AbstractPathModelDAG): # Note that we inher
         """
         
         self.solve_time_start = time.perf_counter()
+        # A previous successful solve() must not make this run look solved if it fails
+        self._is_solved = False
+        self._solution = None
+        self.model = None
         previous_solution_objective_value = None
         solve_status = None
         found_feasible = False
